@@ -8,7 +8,7 @@ namespace Splipy.MP
 theorem lookupPoint_complete {nc : ℕ} {S : Obj → Prop} {m : Model} (hI : Inv nc S m) {x : Obj}
     (hx : GU nc x) (h0 : x.pardim = 0) (add : Bool) {c : ℕ} (hc : Rep m c x) :
     ∃ r, m.lookupPoint x add = .ok r := by
-  rw [lookupPoint_eq m x add hx.nonrat]
+  rw [lookupPoint_eq m x add]
   have hpd : (m.node c).obj.pardim = 0 := by rw [hc.2.pardim_eq]; exact h0
   obtain ⟨kv, hkv, hk⟩ := hI.vall c hc.1 hpd
   have hkey : kv.1 = pointKey x := by
